@@ -122,6 +122,13 @@ MUTANTS = [
      "outer bound from the first increment"),
     ("m-c11-cursor", "C11", TR, "        ag.universe.trajectory[frame_index]\n", "        ag.universe.trajectory[int(frame_index) - int(frame_index) % 2]\n",
      "every odd frame analysed at its even predecessor"),
+    ("m-c11-imap-unordered", "C11", TR, "direction_frames = worker_pool.map(run_per_frame, frame_values)",
+     "direction_frames = list(worker_pool.imap_unordered(run_per_frame, frame_values, chunksize=16))",
+     "results taken in completion order: invisible with the real Pool(1) (one worker completes in order), visible "
+     "only under the simulated pool schedule"),
+    ("m-c11-imap", "C11", TR, "direction_frames = worker_pool.map(run_per_frame, frame_values)",
+     "direction_frames = list(worker_pool.imap(run_per_frame, frame_values, chunksize=16))",
+     "ordered imap: a legitimate refactoring (expected survivor - must NOT raise an alarm)"),
     # ---- C08
     ("m-c08-no-seed-q", "C08", RO, "        np.random.seed(0)\n        all_quaternions = random_quaternions(self.N)",
      "        all_quaternions = random_quaternions(self.N)", "randomQ not seeded"),
